@@ -1,4 +1,4 @@
 SPECIFICATION Spec
 CONSTANTS NT = 2 NI = 2 NK = 1 NC = 2 Bug = "noiolock"
-INVARIANTS InvMutex InvUse InvFilledOnce InvFlagLast InvCache InvOneInsert InvNothingLost InvIO InvItems InvResult InvThisCallOnly InvLocksFree
+INVARIANTS InvMutex InvUse InvFilledOnce InvFlagLast InvCache InvOneInsert InvNothingLost InvIO InvItems InvResult InvThisCallOnly InvLocksFree InvWhole InvGuard
 CHECK_DEADLOCK TRUE
